@@ -54,8 +54,17 @@ class Check(PropertyCheck):
         for i in range(n):
             names = [self.rng.choice(TAGNAMES) for _ in range(self.rng.range(1, 3))]
             tag = tag_of(names)
-            kind = self.rng.below(6)
+            kind = self.rng.below(7)
             k, nn = self.rng.below(10), self.rng.below(5)
+            if kind == 6:      # boxes nested 2..4 deep, one distinct tag per level
+                depth = self.rng.range(2, 4)
+                lv = list(TAGNAMES)
+                self.rng.shuffle(lv)
+                lv = lv[:depth]
+                corners = self.rng.choice(["++++", "..''"])
+                t = gen.nested_boxes([["{%s}" % nm] for nm in lv], corners=corners)
+                out.append((gen.place(t, k, nn), "deep", lv, [], "{%s}" % lv[-1]))
+                continue
             if kind == 0:      # sharp box, tag + label
                 w = len(tag) + self.rng.range(4, 12)
                 pos = self.rng.range(1, w - len(tag) - 2)
@@ -215,6 +224,18 @@ class Check(PropertyCheck):
                 shapes = [e for e in els if e.tag == shape]
                 if tag in texts:
                     bad = "the tag is rendered as text"
+                elif kind == "deep":
+                    # names[j] is the tag written at nesting level j (outermost first)
+                    if len(shapes) != len(names):
+                        bad = "%d nested boxes are not %d rects" % (len(names), len(names))
+                    else:
+                        shapes.sort(key=lambda e: -float(e.attrs["width"]))
+                        for j, e in enumerate(shapes):
+                            cl = e.attrs.get("class", "").split()
+                            if names[j] not in cl or any(nm in cl for q, nm in enumerate(names) if q != j):
+                                bad = "the tag of nesting level %d is not applied to the innermost shape around it only" % (j + 1)
+                        if any(("{%s}" % nm) in texts for nm in names):
+                            bad = "a tag is rendered as text"
                 elif kind == "nested":
                     if len(shapes) != 2:
                         bad = "nested boxes are not two rects"
